@@ -15,6 +15,7 @@ import (
 	"sort"
 	"strings"
 	"sync"
+	"sync/atomic"
 	"time"
 
 	mqtt "github.com/mochi-mqtt/server/v2"
@@ -304,10 +305,40 @@ func (b *bkState) collectX(bc int, sortTail int) string {
 		out = "-"
 	}
 	out = strings.TrimSpace(out)
+	out += " " + b.hidden()
 	if len(flags) > 0 {
 		out += " V[" + strings.Join(flags, ",") + "]"
 	}
 	return out
+}
+
+// hidden renders, as one token, the session state an op changes without writing a byte: the in-flight
+// counters and every client's in-flight records (offline members of a share group, messages deferred
+// by flow control). Appended to every op's output so that the choice Go's map iteration made is
+// compared at the op where it was made, not at a later dump.
+func (b *bkState) hidden() string {
+	var cs []string
+	for _, cl := range b.s.Clients.GetAll() {
+		var fl []string
+		for _, pk := range cl.State.Inflight.GetAll(false) {
+			e := fmt.Sprintf("%05d.t%d.q%d", pk.PacketID, pk.FixedHeader.Type, pk.FixedHeader.Qos)
+			if pk.FixedHeader.Type == packets.Publish {
+				var si []string // the identifiers a resend would carry (which share entry was merged first decides)
+				for _, v := range pk.Properties.SubscriptionIdentifier {
+					if v > 0 {
+						si = append(si, fmt.Sprint(v))
+					}
+				}
+				e += "." + hx(pk.Payload) + ".si" + strings.Join(si, "+")
+			}
+			fl = append(fl, e)
+		}
+		sort.Strings(fl)
+		cs = append(cs, hx([]byte(cl.ID))+"="+strings.Join(fl, ","))
+	}
+	sort.Strings(cs)
+	return fmt.Sprintf("H[%d/%d/%d|%s]", atomic.LoadInt64(&b.s.Info.Inflight), atomic.LoadInt64(&b.s.Info.InflightDropped),
+		atomic.LoadInt64(&b.s.Info.MessagesDropped), strings.Join(cs, "|"))
 }
 
 func fixedHeader(hb byte, body []byte) []byte {
